@@ -134,7 +134,11 @@ func c09exec(j run.Job, a *run.Acc) {
 		if p0 := rd.Pos(0); int(p0) != base {
 			a.Violate("reader-pos", "reader-pos", d("Reader.Pos", map[string]any{"got": int(p0), "want": base}))
 		}
-		for cur := 0; cur <= len(c); cur++ {
+		for idx := 0; idx <= len(c); idx++ {
+			cur := idx
+			if seedCase%4 >= 2 { // half of the files are swept from the end to the start: the order of calls must not matter
+				cur = len(c) - idx
+			}
 			pos := parsley.Pos(base + cur)
 			a.Count("positions", 1)
 			func() {
